@@ -534,6 +534,33 @@ def run_C14(res, tier, seed, t_end):
         srv.connected = True
         await do(lambda: r.get('k'))
         return out
+    async def burst(srv):
+        # several messages reach a subscriber that is already waiting, within one turn of the event loop: they keep their order
+        r, r2 = far.FakeRedis(server=srv), far.FakeRedis(server=srv)
+        ps = r.pubsub(); await ps.subscribe('ch'); await ps.get_message(timeout=0.2)
+
+        async def pub():
+            await asyncio.sleep(0.05)
+            p = r2.pipeline(transaction=True); p.publish('ch', 'm1'); p.publish('ch', 'm2'); p.publish('ch', 'm3'); await p.execute()
+            await r2.publish('ch', 'm4'); await r2.publish('ch', 'm5')
+        t = asyncio.ensure_future(pub())
+        got = []
+        for _ in range(5):
+            m = await ps.get_message(ignore_subscribe_messages=True, timeout=1.0)
+            got.append(m and m['data'])
+        await t
+        return got
+    loop = asyncio.new_event_loop()
+    try:
+        got = loop.run_until_complete(asyncio.wait_for(burst(fakeredis.FakeServer()), 20))
+    except Exception as e:      # noqa
+        got = repr(e)
+    finally:
+        loop.close()
+    res.evaluations += 1
+    if got != [b'm1', b'm2', b'm3', b'm4', b'm5']:
+        res.add(finding('C14', 'async_messages_in_order', 'a waiting asyncio subscriber received %r' % (got,)))
+        return
     for rnd in range(1 if tier == 'quick' else 5):
         a = ops_sync(fakeredis.FakeServer())
         loop = asyncio.new_event_loop()
